@@ -8,13 +8,19 @@ CFG = {'streams': [{'name': 'C14',
                             "view (members of both sorted by key); 2 = decoding the implementation's JSON (lookup by key) does not give back the API "
                             'view (node count, per-node attribute map, per-node edge map) - the property predicate; 4 = Graph::display_json into a file that held a longer document does not leave exactly the JSON of this graph there, or to_string_pretty/to_string '
                             "text does not re-parse to the same value; 8 = pretty_print text differs from the model's; 16 = nodes/edges/attributes "
-                            "parsed back from the implementation's pretty text differ from the API view"}],
+                            "parsed back from the implementation's pretty text differ from the API view; 32 = the REAL JSON text written by "
+                            "Graph::display_json (= serde_json::to_string_pretty(&graph)) differs from the model's print_pretty: the model's parser "
+                            "parse_json_text rejects it, or print_pretty of the parsed tree does not reproduce the text character by character "
+                            "(escaping, number rendering, indentation, separators), or the parsed tree (syntax-node ids canonicalised) is not the "
+                            "implementation's value tree up to member order"}],
  'rule': 'graphs built through the public API (5 of 6 cases: 0-40 nodes, 10% with 0-1 nodes, 15% with 21-40, random edge sets incl. self loops, 35% '
          'with a hub node of >8 edges (SmallVec spill), 0-3 attributes per node and on 55% of edges, construction order shuffled, attribute names '
          'incl. the JSON structure keys type/id/attrs/values/sink/edges, non-ASCII, space and quote) or by executing generated DSL programs (1 of 6: '
          '1-3 stanzas over 5 query shapes, 1-4 nodes, edges, attr statements with literal/list/set/capture/node expressions, strict or lazy); values '
-         'of every variant nested to depth 3, integers incl. u32 boundaries, 40 strings covering every escape class (quotes, backslash, \\0 \\t \\n '
-         '\\r, C0/C1 controls, DEL, combining mark, zero-width/format, CJK, astral, private use, U+2028, U+10FFFF) and strings that imitate the '
+         'of every variant nested to depth 3, integers incl. u32 boundaries, 53 strings covering every escape class (quotes, backslash, \\0 \\t \\n '
+         '\\r, C0/C1 controls, DEL, combining mark, zero-width/format, CJK, astral, private use, U+2028, U+10FFFF), every escape class of '
+         "serde_json's string printer (\\b \\f \\n \\r \\t, quote, backslash, \\u00XX with hex letters in either digit, and '/', DEL, U+2028/9 which stay "
+         "raw; also in attribute names; tags json_esc:* / json_raw:*) and strings that imitate the "
          'printed syntax; sets receive duplicate elements; non-trivial = at least 2 nodes AND an edge with attributes AND a list/set nested in a '
          'list/set; distinct by hash of (API view, pretty text); in 15-20% of cases syntax nodes may occur inside sets: there element order depends '
          'on addresses and is compared after re-sorting (tag syntax_node_in_set)',
@@ -23,11 +29,19 @@ CFG = {'streams': [{'name': 'C14',
                 'index order with its id, edges once each in strictly ascending sink order, unique keys, exact type tags); value_cmp is a strict '
                 'total order and sets are emitted strictly sorted without duplicates; pretty lines = node line, name-sorted attribute lines, edge '
                 'lines with their sorted attribute lines; parsing the lines back yields exactly the nodes, sinks, attribute names and Debug texts; '
-                'the text splits into exactly those lines. Correspondence per case: model JSON vs serde_json::to_value (members sorted on both sides '
+                'the text splits into exactly those lines. TEXT level (Model/JsonText.v = serde_json PrettyFormatter + string escaping + u32 decimals, '
+                'texts as lists of scalar values): parse_json (print_pretty j) = (j, nothing left) for EVERY value tree j with any fuel >= its size '
+                '(the length of the text always suffices), also with surrounding whitespace; print_pretty injective; escape_roundtrip for all '
+                'strings; no character below U+0020 in the output except layout line feeds, none inside string literals; well-formed trees print '
+                'scalar values only; graph -> tree -> text -> tree -> graph is the identity (graph_json_text_roundtrip), for any member order up to '
+                'attribute-list order. Correspondence per case: model JSON vs serde_json::to_value (members sorted on both sides '
                 'by the model), decode(impl JSON) vs the API view read through iter_nodes/iter_edges/Attributes::iter, re-parse of the JSON text, '
-                "full pretty_print text vs model, and extraction from the implementation's text vs API view.",
- 'assumptions': ['serde_json renders and re-parses JSON text faithfully (escaping of quotes, control and non-ASCII characters): checked dynamically '
-                 'by re-parsing to_string_pretty and to_string in every case, not modelled',
+                "full pretty_print text vs model, extraction from the implementation's text vs API view, and the real display_json text: parsed by "
+                "the model's parser, printed back by the model's printer, compared character by character (member order is read off the text).",
+ 'assumptions': ["serde_json's pretty text is modelled (print_pretty) and compared character by character in every case; its compact "
+                 'to_string form and its own parser are not modelled (checked dynamically by re-parsing both texts in every case)',
+                 'JSON texts are lists of Unicode scalar values; the UTF-8 encoding of the file is outside the model (the harness decodes the '
+                 'file with String::from_utf8)',
                  "Rust's Debug escaping (char::escape_debug_ext) is defined in the model for ASCII; for non-ASCII characters the "
                  'printable/Grapheme_Extend verdict is taken from std (char::escape_debug) as a per-case truth table',
                  "decimal / hexadecimal integer formatting of std = Coq's N.to_uint / N.to_hex_uint digit lists",
